@@ -677,6 +677,10 @@ def _ent_output_case(repo, variant):
     ent.add_out(Output('OnTrigger', 'script', 'RunScriptCode', param, 0.5, times=-1, comma_sep=out_comma))
     ent.add_out(Output('OnSpawn', 'other', 'Kill', '', 0.0, times=1, comma_sep=not out_comma))
     want = [(o.output, o.target, o.input, o.params, o.delay, o.times) for o in ent.outputs]
+    # ordinary keyvalues that merely contain commas: an output has exactly four separators, anything else is a value
+    plain = {'bbox': '-16,-16,0,16,16,72', 'curve': '0,0,1,1,2,4,3', 'pair': '1,2', 'csv': 'a,b,c'}
+    for k, v in plain.items():
+        ent[k] = v
     d = tempfile.mkdtemp(prefix='c11e_')
     try:
         try:
@@ -689,6 +693,9 @@ def _ent_output_case(repo, variant):
         got = [(o.output, o.target, o.input, o.params, o.delay, o.times) for o in ents[0].outputs]
         if got != want:
             return f'entity outputs {variant}: wrote {want}, read {got} (keys: {dict(ents[0].items())})'
+        for k, v in plain.items():
+            if ents[0][k] != v:
+                return f'entity keyvalue {k!r} = {v!r} with commas read back as {ents[0][k]!r} ({variant})'
         return None
     finally:
         shutil.rmtree(d, ignore_errors=True)
@@ -747,12 +754,114 @@ def _nodes_case(repo, variant):
         shutil.rmtree(d, ignore_errors=True)
 
 
+def _touch_case(repo, view):
+    """A view without a value generator: its writer is run on the value its reader produced (the view is parsed and
+    assigned back), and afterwards *every* view of the saved file must still read as it does from the sample."""
+    import shutil
+    import tempfile
+    from contracts import bsp_support as S
+    ref = {}
+    for v in S.VIEWS:
+        ref[v] = S.dump(getattr(S.open_sample(repo), v))
+    bsp = S.open_sample(repo)
+    setattr(bsp, view, getattr(bsp, view))
+    d = tempfile.mkdtemp(prefix='c11t_')
+    try:
+        try:
+            back, _ = S.save_and_reopen(bsp, d)
+        except Exception as e:
+            return f'touch {view}: save/re-open raised {type(e).__name__}: {e}'
+        for v in [view] + [x for x in S.VIEWS if x != view]:
+            try:
+                got = S.dump(getattr(back, v))
+            except Exception as e:
+                return f'after writing {view} from its parsed value, re-reading {v} raised {type(e).__name__}: {e}'
+            if got != ref[v]:
+                return f'after writing {view} from its parsed value, view {v} reads differently'
+        return None
+    finally:
+        shutil.rmtree(d, ignore_errors=True)
+
+
+def _hdr_faces_case(repo, variant):
+    """LDR / HDR faces and the original faces they share, built by hand on top of the sample (which has no faces): saved,
+    re-read, and a second generation that touches only the HDR list.  Variants: which of the three lists name the
+    original faces before saving."""
+    import shutil
+    import tempfile
+    from contracts import bsp_support as S
+    from srctools import Vec
+    from srctools.bsp import BSP, Edge, Face, Plane, SurfFlags, TexData, TexInfo
+
+    def make_face(plane, edges, texinfo, orig, area, hammer_id):
+        return Face(plane, True, False, edges, texinfo, -1, 0, b'\x00\xff\xff\xff', -1, area, (0, 0), (4, 4),
+                    orig, [], True, 0, hammer_id, 0)
+
+    def describe(face):
+        if face is None:
+            return None
+        return (tuple(face.plane.normal), face.plane.dist, [(tuple(e.a), tuple(e.b)) for e in face.edges],
+                face.texinfo._info.mat if face.texinfo is not None else None, face.area, face.lightmap_size)
+
+    def snap(b):
+        return {'faces': [(describe(f), describe(f.orig_face)) for f in b.faces],
+                'hdr_faces': [(describe(f), describe(f.orig_face)) for f in b.hdr_faces],
+                'orig': sorted(describe(f) for f in b.orig_faces)}
+    bsp = S.open_sample(repo)
+    plane = Plane(Vec(0, 0, 1), 64.0)
+    tinfo = TexInfo(Vec(1, 0, 0), 0.0, Vec(0, -1, 0), 0.0, Vec(0.0625, 0, 0), 0.0, Vec(0, -0.0625, 0), 0.0,
+                    SurfFlags(0), TexData('brick/brickfloor001a', Vec(0.25, 0.25, 0.25), 512, 512))
+    v = [Vec(0, 0, 64), Vec(128, 0, 64), Vec(128, 128, 64), Vec(0, 128, 64), Vec(64, 64, 64)]
+    e = [Edge(v[0], v[1]), Edge(v[1], v[2]), Edge(v[2], v[3]), Edge(v[3], v[0]), Edge(v[0], v[2])]
+    orig_a = make_face(plane, e[0:4], tinfo, None, 16384.0, None)
+    orig_b = make_face(plane, [e[0], e[1], e[4].opposite], tinfo, None, 8192.0, None)
+    bsp.vertexes = list(bsp.vertexes) + v
+    bsp.planes = list(bsp.planes) + [plane]
+    bsp.texinfo = list(bsp.texinfo) + [tinfo]
+    bsp.surfedges = list(bsp.surfedges) + e[0:4] + [e[4].opposite]
+    ldr = [make_face(plane, e[0:4], tinfo, orig_a, 16384.0, 11)]
+    hdr = [make_face(plane, e[0:4], tinfo, orig_a, 16384.0, 11),
+           make_face(plane, [e[0], e[1], e[4].opposite], tinfo, orig_b, 8192.0, 12)]
+    if variant == 'originals_listed':
+        bsp.orig_faces = [orig_a, orig_b]
+    elif variant == 'one_original_only_via_hdr':
+        bsp.orig_faces = [orig_a]           # orig_b is reachable only through an HDR face: the writer appends it
+    if variant != 'hdr_only':
+        bsp.faces = ldr
+    bsp.hdr_faces = hdr
+    want = {'faces': [(describe(f), describe(f.orig_face)) for f in (ldr if variant != 'hdr_only' else [])],
+            'hdr_faces': [(describe(f), describe(f.orig_face)) for f in hdr],
+            'orig': sorted([describe(orig_a), describe(orig_b)])}
+    d = tempfile.mkdtemp(prefix='c11h_')
+    try:
+        for generation in (1, 2):
+            try:
+                back, _ = S.save_and_reopen(bsp, d)
+                got = snap(back)
+            except Exception as e:
+                return f'hand-built faces ({variant}), generation {generation}: save / re-read raised {type(e).__name__}: {e}'
+            if got != want:
+                bad = [k for k in want if got[k] != want[k]]
+                return f'hand-built faces ({variant}), generation {generation}: {bad} read back differently'
+            bsp = BSP(back.filename)        # second generation: only the HDR list is parsed, edited and written
+            hdr2 = bsp.hdr_faces
+            hdr2[0].area = 100.0 + generation
+            want['hdr_faces'][0] = (describe(hdr2[0]), want['hdr_faces'][0][1])
+        return None
+    finally:
+        shutil.rmtree(d, ignore_errors=True)
+
+
 def _job_extra(job):
     import os
     repo = os.environ.get('VERIF_REPO', '/repo')
     try:
         if job[0] == 'nodes':
             return _nodes_case(repo, job[1])
+        if job[0] == 'touch':
+            return _touch_case(repo, job[1])
+        if job[0] == 'hdr':
+            return _hdr_faces_case(repo, job[1])
         return _bmodel_phys_case(repo, job[1]) if job[0] == 'bmodel' else _ent_output_case(repo, tuple(job[1]))
     except Exception as e:
         return f'{type(e).__name__}: {e}'
@@ -760,11 +869,16 @@ def _job_extra(job):
 
 @bounded('C11.B-extra', bound='sample BSP: first brush model with physics keyvalues only / solids only / neither / both; an '
          'entity with two outputs under both map separator conventions x both per-output flags x parameters with 0..3 commas; the '
-         'node list assigned with only the root nodes / roots reversed / every other node / all nodes reversed',
+         'node list assigned with only the root nodes / roots reversed / every other node / all nodes reversed; every view '
+         'without a value generator parsed and assigned back (its writer runs on what its reader produced), then all '
+         'views re-read; hand-built LDR / HDR faces sharing original faces (listed / reachable only through an HDR face / not listed / HDR only) over two generations',
          rule='one case per variant')
 def b_extra(ctx):
     jobs = [('bmodel', v) for v in ('kv_only', 'solids_only', 'neither', 'both')]
     jobs += [('nodes', v) for v in ('roots_only', 'roots_reversed', 'every_other', 'reversed')]
+    from contracts import bsp_support as _S
+    jobs += [('touch', v) for v in _S.VIEWS if v not in _S.GENERATED_VIEWS]
+    jobs += [('hdr', v) for v in ('originals_listed', 'one_original_only_via_hdr', 'no_original_list', 'hdr_only')]
     for map_comma in (True, False):
         for out_comma in (True, False):
             for param in ('', 'plain', 'SpawnAt(128, 64, 0)', 'a,b'):
